@@ -124,12 +124,51 @@ def check_backend_surface(ctx, progs, rule="E7.backend-surface"):
     ctx.floor(rule, "direct calls into the backend crates", n, 40)
 
 
+# values that depend on the identity or the layout of a type: under the two backends the associated types are different
+# crates' types (different names, possibly different sizes), so a result that flows from one of these differs between the
+# builds even though both bodies are "the same modulo crate name"
+REFLECTION = ("type_name", "type_name_of_val", "size_of", "size_of_val", "align_of", "align_of_val", "min_align_of", "needs_drop", "type_id")
+
+
+_PRIM = __import__("re").compile(r"^(u8|u16|u32|u64|u128|usize|i8|i16|i32|i64|i128|isize|bool|char|\\[u8; \\d+\\])$")
+
+
+def reflection_calls(P):
+    out = []
+    for f in P.fns.values():
+        if f.from_expansion:
+            continue
+        for bb, t in f.calls():
+            c = t.get("callee") or {}
+            p = c.get("path") or ""
+            last = p.rsplit("::", 1)[-1]
+            hit = (c.get("crate") in ("core", "std", "alloc") and last in REFLECTION and ("::any::" in p or "::mem::" in p or "::intrinsics::" in p)) or p.endswith("any::TypeId::of")
+            if hit and not all(_PRIM.match(a) for a in (c.get("args") or ["?"])):
+                out.append((f, bb, p, c.get("args") or []))
+    return out
+
+
+def check_no_reflection(ctx, progs, rule="E7.reflection"):
+    n = 0
+    for name, P in progs:
+        n += sum(1 for f in P.fns.values() for _ in f.calls())
+        for f, bb, p, args in reflection_calls(P):
+            ctx.ob(rule, "%s|%s->%s" % (name, f.key, p), False, "%s build: %s calls `%s::<%s>` - its value names or measures a type, and the library's types are the backend crate's under each feature" % (name, f.key, p, ", ".join(args)), where=where(f, bb))
+    ctx.ob(rule, "census", True, "%d call sites inspected for type reflection (type_name, TypeId, size_of, align_of ... of non-primitive types) in both builds: none outside macro expansions" % n)
+    ctx.floor(rule, "call sites inspected", n, 2000)
+    from . import posctl as PC
+
+    k = len(reflection_calls(PC.fixture_program()))
+    ctx.ob(rule + ".posctl", "reflection", k > 0, "positive control: the reflection detector matched %d site(s) in fixtures/posctl (must be > 0, otherwise the rule is blind)" % k)
+
+
 def run(ctx):
     Pa = ctx.prog("blst", "dev")
     Pb = ctx.prog("rust", "dev")  # raises ExtractError (-> violation `build/cargo-check`) if the rust configuration does not type-check
     ctx.ob("E10.typecheck", "blst", True, "cargo +nightly check --lib (default features) succeeded: %d bodies" % len(Pa.fns))
     ctx.ob("E10.typecheck", "rust", True, "cargo +nightly check --lib --no-default-features --features rust succeeded: %d bodies" % len(Pb.fns))
     check_backend_surface(ctx, (("blst", Pa), ("rust", Pb)))
+    check_no_reflection(ctx, (("blst", Pa), ("rust", Pb)))
     ka, kb = set(Pa.fns), set(Pb.fns)
     ctx.ob("E10.bodies", "same-set", ka == kb, "bodies only in blst build: %s ; only in rust build: %s" % (sorted(ka - kb)[:5], sorted(kb - ka)[:5]))
     ndiff = 0
